@@ -37,7 +37,10 @@ def check(env, rep, tier):
             a0 = I.mat(st, prog.ty(body["locals"][1]["ty"]), "self")
             lim_ty = prog.ty(body["locals"][2]["ty"])
             L = I.fresh_int(st, "limit", (64, False))
-            if mode == "some":
+            plain_limit = lim_ty is not None and lim_ty[0] == "int"     # `limit: usize` with usize::MAX standing for "no limit"
+            if plain_limit:
+                lim = L if mode == "some" else IntV(Aff.const((1 << 64) - 1), (64, False))
+            elif mode == "some":
                 lim = EnumV("core::option::Option", {1: StructV([L])}, lim_ty)
             else:
                 lim = EnumV("core::option::Option", {0: StructV([])}, lim_ty)
@@ -145,7 +148,15 @@ def check(env, rep, tier):
             args = [I.mat(st, prog.ty(b["locals"][i + 1]["ty"]), "a%d" % i) for i in range(b["arg_count"])]
             I, res = run(prog, b, args=args, st=st, I=I)
             ok = len(seen) == 1 and isinstance(seen[0], EnumV) and len(seen[0].variants) == 1
-            if ok:
+            if len(seen) == 1 and isinstance(seen[0], IntV):
+                # the serialiser takes a plain usize: usize::MAX is "no limit" (no length can exceed it)
+                if kind == "none":
+                    ok = seen[0].aff == Aff.const((1 << 64) - 1)
+                elif kind == "max":
+                    ok = seen[0].aff == Aff.const(want_max)
+                else:
+                    ok = len(args) > 1 and seen[0] == args[1]
+            elif ok:
                 vi = next(iter(seen[0].variants))
                 p = seen[0].variants[vi]
                 if kind == "none":
